@@ -73,14 +73,15 @@ pub enum SymbolId {
 enum Param<'a> {
     Input(&'a str),
     Return,
+    Field(&'a str),
 }
 
 impl Display for Param<'_> {
     fn fmt(&self, f: &mut fmt::Formatter) -> fmt::Result {
-        if let Param::Input(s) = *self {
-            write!(f, "param {s}")
-        } else {
-            write!(f, "return type")
+        match *self {
+            Param::Input(s) => write!(f, "param {s}"),
+            Param::Return => write!(f, "return type"),
+            Param::Field(s) => write!(f, "field {s}"),
         }
     }
 }
@@ -353,6 +354,23 @@ impl TypeContext {
         // Lifetime validity check
         for (_id, ty) in self.all_types() {
             errors.set_item(ty.name().as_str());
+            // Struct definitions must restate the bounds their field types require:
+            // rustc infers them, but methods only see the bounds written on the struct
+            match ty {
+                TypeDef::Struct(st) => {
+                    for field in &st.fields {
+                        let name = Param::Field(field.name.as_str());
+                        self.validate_ty_in_env(errors, name, &field.ty, &st.lifetimes, "Struct");
+                    }
+                }
+                TypeDef::OutStruct(st) => {
+                    for field in &st.fields {
+                        let name = Param::Field(field.name.as_str());
+                        self.validate_ty_in_env(errors, name, &field.ty, &st.lifetimes, "Struct");
+                    }
+                }
+                _ => {}
+            }
             for method in ty.methods() {
                 errors.set_subitem(method.name.as_str());
 
@@ -405,6 +423,19 @@ impl TypeContext {
         param_ty: &hir::Type<P>,
         method: &hir::Method,
     ) {
+        self.validate_ty_in_env(errors, param, param_ty, &method.lifetime_env, "Method")
+    }
+
+    /// Ensure that a type used in a method signature or struct definition does not implicitly introduce
+    /// bounds that are not already specified in `lifetime_env`
+    fn validate_ty_in_env<P: hir::TyPosition>(
+        &self,
+        errors: &mut ErrorStore,
+        param: Param,
+        param_ty: &hir::Type<P>,
+        lifetime_env: &hir::LifetimeEnv,
+        item_kind: &str,
+    ) {
         let linked = match param_ty.unwrap_option() {
             hir::Type::Opaque(p) => p.link_lifetimes(self),
             hir::Type::Struct(p) => p.link_lifetimes(self),
@@ -415,7 +446,7 @@ impl TypeContext {
             let MaybeStatic::NonStatic(use_lt) = use_lt else {
                 continue;
             };
-            let Some(use_bounds) = &method.lifetime_env.get_bounds(use_lt) else {
+            let Some(use_bounds) = &lifetime_env.get_bounds(use_lt) else {
                 continue;
             };
             let use_longer_lifetimes = &use_bounds.longer;
@@ -443,8 +474,8 @@ impl TypeContext {
                 }
 
                 if !use_longer_lifetimes.contains(&corresponding_use) {
-                    let use_name = method.lifetime_env.fmt_lifetime(use_lt);
-                    let use_longer_name = method.lifetime_env.fmt_lifetime(corresponding_use);
+                    let use_name = lifetime_env.fmt_lifetime(use_lt);
+                    let use_longer_name = lifetime_env.fmt_lifetime(corresponding_use);
                     let def_cause = if let Some(def_lt) = def_lt {
                         let def_name = linked.def_env().fmt_lifetime(def_lt);
                         let def_longer_name = linked.def_env().fmt_lifetime(def_longer);
@@ -453,7 +484,7 @@ impl TypeContext {
                         // This case is technically already handled in the lifetime lowerer, we're being careful
                         "comes from &-ref's lifetime in parameter".into()
                     };
-                    errors.push(LoweringError::Other(format!("Method should explicitly include this \
+                    errors.push(LoweringError::Other(format!("{item_kind} should explicitly include this \
                                         lifetime bound from {param}: '{use_longer_name}: '{use_name} ({def_cause})")))
                 }
             }
